@@ -9,7 +9,7 @@ from __future__ import annotations
 from typing import TYPE_CHECKING
 
 from xknx.dpt import DPTArray, DPTBinary
-from xknx.exceptions import CouldNotParseTelegram
+from xknx.exceptions import ConversionError, CouldNotParseTelegram
 
 from .remote_value import GroupAddressesType, RemoteValue, RVCallbackType
 
@@ -49,7 +49,13 @@ class RemoteValueScaling(RemoteValue[int]):
 
     def to_knx(self, value: float) -> DPTArray:
         """Convert value to payload."""
-        knx_value = self._calc_to_knx(self.range_from, self.range_to, value)
+        try:
+            knx_value = self._calc_to_knx(self.range_from, self.range_to, value)
+        except (ValueError, OverflowError, TypeError, ZeroDivisionError) as err:
+            # eg. nan, inf, a value that is no number, or an empty range
+            raise ConversionError(
+                f"Could not serialize scaled value for {self.device_name}", value=value
+            ) from err
         return DPTArray(knx_value)
 
     def from_knx(self, payload: DPTArray | DPTBinary) -> int:
